@@ -397,7 +397,12 @@ def _near_symmetric(draw, names, ops, depth):
     x2, y2 = _perturb(draw, x, names), _perturb(draw, y, names)
     imp = draw(st.sampled_from([o for o in ("IMPLIES", "REQUIRES") if o in ops]))
     if "OR" in ops and draw(st.booleans()):
-        return ["OR", ["AND", x, ["NOT", y]], ["AND", ["NOT", x2], y2]]
+        # the xor expansion, exactly or with the second conjunct arranged otherwise (same operands, other polarity
+        # or order): (x & !y) | (!x & y), (x & !y) | (!y & x), (x & !y) | (y & !x) ...
+        second = draw(st.sampled_from([lambda a, b: ["AND", ["NOT", a], b], lambda a, b: ["AND", b, ["NOT", a]],
+                                       lambda a, b: ["AND", ["NOT", b], a], lambda a, b: ["AND", a, ["NOT", b]],
+                                       lambda a, b: ["AND", ["NOT", a], ["NOT", b]], lambda a, b: ["AND", a, b]]))
+        return ["OR", ["AND", x, ["NOT", y]], second(x2, y2)]
     return ["AND", [imp, x, y], [imp, y2, x2]]
 
 
